@@ -96,6 +96,14 @@ add("C02", "exploration",
     "one copy per holder; each workload's result is probed so a failed loop cannot pass as fast.",
     "Trusted: the counting #[global_allocator] in nlrun (deterministic byte counts). Two sizes only; strings/$=/x{..}/every..f= reported, not asserted.",
     "DESIGN.md §3 C02")
+add("C03", "exploration",
+    "property-based testing (Hypothesis) plus exhaustive small-chain enumeration against two independent reference groupers; metamorphic full parenthesisation; evaluation-order log",
+    "Chains of 2-7 operators over tree-building closures, right/left-associative builtin copies with runtime-assigned precedences (all weak "
+    "orders incl. +-inf for <= 3-4 operators), comparison / zip / ** aliases with n-ary merging, til/to+by, fold/scan+from, replace+with, "
+    "zip+with templates over a precedence grid incl. a trailing third operator; direct, parenthesised and underscore-section routes; "
+    "operands and operator expressions logged exactly once left to right.",
+    "Trusted: the two Python groupers (cross-checked against each other), nlrun serialiser, Hypothesis. No NaN precedences.",
+    "DESIGN.md §3 C03")
 add("C04", "exploration",
     "exhaustive differential grid: every callable x argument tuples from a 54-value pool, all application forms of the statement evaluated and compared (equal canonical outcome or common failure)",
     "~310 builtins/types plus 21 user callables (closures, defaults, splats, compositions, left/right sections, flips) x pool^k (k=1..3): "
